@@ -13,6 +13,11 @@ import (
 )
 
 func main() {
+	// offline toolchain: go1.26.8 first on PATH (go/packages looks "go" up in this process's PATH)
+	os.Setenv("PATH", "/opt/veriftools/go1.26.8/bin:"+os.Getenv("PATH"))
+	for k, v := range map[string]string{"GOFLAGS": "-mod=mod", "GOPROXY": "off", "GOSUMDB": "off", "GOTOOLCHAIN": "local", "CGO_ENABLED": "0"} {
+		os.Setenv(k, v)
+	}
 	if len(os.Args) < 2 {
 		fmt.Fprintln(os.Stderr, "usage: vcheck run|check|replay ...")
 		os.Exit(2)
